@@ -422,7 +422,7 @@ theorem inv_fresh (fam : Bool) : Inv (freshOf fam) := by
       match i, this with
       | 0, _ | 1, _ | 2, _ | 3, _ => simp [freshOf, World.freshA64] at hi; subst hi; rfl
 
-theorem inv_init (w : World) (a : Arch) (hw : Inv w) : Inv (w.init a).1 := by
+theorem inv_init (w : World) (a : Arch) (b : Option Nat) (hw : Inv w) : Inv (w.init a b).1 := by
   simp only [World.init]
   split
   · exact hw
@@ -646,7 +646,14 @@ theorem inv_step (w : World) (op : Op) (hw : Inv w) (hop : op.wfAt w) : Inv (w.s
       · rw [if_neg hc]; exact hw
   cases op
   case world f st => exact inv_of_sim (freshOf f) _ (by cases f <;> rfl) (inv_fresh f)
-  case init a => exact inv_init w a hw
+  case init a => exact inv_init w a none hw
+  case initb a b => exact inv_init w a (some b) hw
+  case relocate b =>
+    simp only [World.step]
+    split
+    · exact hw
+    · rename_i hn
+      exact ⟨hw.ac, hw.dc, hw.fm, fun h => by have h' : w.h.arch = none := h; simp [h'] at hn⟩
   case reset hard => exact inv_reset w hard hw
   case reinit => exact inv_reinit w hw
   case attach i => exact inv_attach w i hw
